@@ -40,7 +40,7 @@ func Discover(ctx context.Context, issuer string, httpClient *http.Client, wellK
 		return nil, err
 	}
 	discoveryConfig := new(oidc.DiscoveryConfiguration)
-	err = httphelper.HttpRequest(httpClient, req, &discoveryConfig)
+	err = httphelper.HttpRequest(httpClient, req, discoveryConfig)
 	if err != nil {
 		return nil, errors.Join(oidc.ErrDiscoveryFailed, err)
 	}
@@ -72,7 +72,7 @@ func callTokenEndpoint(ctx context.Context, request any, authFn any, caller Toke
 		return nil, err
 	}
 	tokenRes := new(oidc.AccessTokenResponse)
-	if err := httphelper.HttpRequest(caller.HttpClient(), req, &tokenRes); err != nil {
+	if err := httphelper.HttpRequest(caller.HttpClient(), req, tokenRes); err != nil {
 		return nil, err
 	}
 	token := &oauth2.Token{
@@ -192,7 +192,7 @@ func CallTokenExchangeEndpoint(ctx context.Context, request any, authFn any, cal
 		return nil, err
 	}
 	tokenRes := new(oidc.TokenExchangeResponse)
-	if err := httphelper.HttpRequest(caller.HttpClient(), req, &tokenRes); err != nil {
+	if err := httphelper.HttpRequest(caller.HttpClient(), req, tokenRes); err != nil {
 		return nil, err
 	}
 	return tokenRes, nil
@@ -245,7 +245,7 @@ func CallDeviceAuthorizationEndpoint(ctx context.Context, request *oidc.ClientCr
 	}
 
 	resp := new(oidc.DeviceAuthorizationResponse)
-	if err := httphelper.HttpRequest(caller.HttpClient(), req, &resp); err != nil {
+	if err := httphelper.HttpRequest(caller.HttpClient(), req, resp); err != nil {
 		return nil, err
 	}
 	return resp, nil
@@ -269,7 +269,7 @@ func CallDeviceAccessTokenEndpoint(ctx context.Context, request *DeviceAccessTok
 	}
 
 	resp := new(oidc.AccessTokenResponse)
-	if err := httphelper.HttpRequest(caller.HttpClient(), req, &resp); err != nil {
+	if err := httphelper.HttpRequest(caller.HttpClient(), req, resp); err != nil {
 		return nil, err
 	}
 	return resp, nil
